@@ -684,6 +684,116 @@ func c20Cases(quick bool) []c20Case {
 			_ = db.Drop(w.Ctx)
 		})
 	}
+	// engine options at and beyond their ends, and engine-level calls with a transaction that is not the current one
+	for _, iv := range []time.Duration{-time.Second, -1, math.MinInt64, 1, math.MaxInt64} {
+		iv := iv
+		add("engine-options", true, func() string {
+			return fmt.Sprintf("CreateEngine with ExpireInterval %d ns and negative / huge change-log limits: insert, TTL index, wait 30 ms, Abort(nil), Abort of a foreign transaction, Close", int64(iv))
+		}, func(w *world.World) {
+			for _, lim := range [][4]int64{{0, 0, 0, 0}, {-1, -1, -1, -1}, {math.MaxInt32, 1, math.MaxInt64, math.MinInt64}, {5, 2, 1, 1}} {
+				eng, err := lungo.CreateEngine(lungo.Options{Store: lungo.NewMemoryStore(), ExpireInterval: iv,
+					MinOplogSize: int(lim[0]), MaxOplogSize: int(lim[1]), MinOplogAge: time.Duration(lim[2]), MaxOplogAge: time.Duration(lim[3])})
+				if err != nil {
+					continue
+				}
+				cl := lungo.NewClient(eng)
+				c := cl.Database("d").Collection("c")
+				_, _ = c.Indexes().CreateOne(w.Ctx, mongo.IndexModel{Keys: bD("at", int32(1)), Options: options.Index().SetExpireAfterSeconds(0)})
+				for k := 0; k < 4; k++ {
+					_, _ = c.InsertOne(w.Ctx, bD("at", primitive.DateTime(1000)))
+				}
+				time.Sleep(30 * time.Millisecond)
+				eng.Abort(nil)
+				eng.Abort(lungo.NewTransaction(eng.Catalog()))
+				_ = eng.Commit(nil)
+				_, _ = c.InsertOne(w.Ctx, bD("_id", "after"))
+				eng.Close()
+				eng.Abort(nil)
+			}
+		})
+	}
+	// second uses: a stream, a cursor and a session that outlive their engine, and calls repeated on closed objects
+	add("second-uses", true, func() string {
+		return "a stream that has delivered an event / that has delivered nothing, a cursor and a session, used and closed (twice) after Engine.Close; Close of a stream before and after its engine"
+	}, func(w *world.World) {
+		for _, deliver := range []bool{true, false} {
+			eng, err := lungo.CreateEngine(lungo.Options{Store: lungo.NewMemoryStore()})
+			if err != nil {
+				return
+			}
+			cl := lungo.NewClient(eng)
+			c := cl.Database("d").Collection("c")
+			_, _ = c.InsertOne(w.Ctx, bD("_id", int32(0)))
+			st, serr := c.Watch(w.Ctx, bson.A{})
+			st2, serr2 := cl.Watch(w.Ctx, bson.A{})
+			_, _ = c.InsertOne(w.Ctx, bD("_id", int32(1)))
+			if serr == nil && deliver {
+				_ = st.TryNext(w.Ctx)
+			}
+			cur, cerr := c.Find(w.Ctx, bD())
+			sess, sesserr := cl.StartSession()
+			if sesserr == nil {
+				_ = sess.StartTransaction()
+			}
+			if serr2 == nil {
+				_ = st2.Close(w.Ctx)
+			}
+			eng.Close()
+			if serr == nil {
+				_ = st.TryNext(w.Ctx)
+				var ev bson.D
+				_ = st.Decode(&ev)
+				_ = st.ResumeToken()
+				_ = st.Close(w.Ctx)
+				_ = st.Close(w.Ctx)
+				_ = st.TryNext(w.Ctx)
+			}
+			if serr2 == nil {
+				_ = st2.Close(w.Ctx)
+				_ = st2.TryNext(w.Ctx)
+			}
+			if cerr == nil {
+				var docs []bson.D
+				_ = cur.All(w.Ctx, &docs)
+				_ = cur.Close(w.Ctx)
+				_ = cur.Close(w.Ctx)
+				_ = cur.Next(w.Ctx)
+			}
+			if sesserr == nil {
+				_ = sess.CommitTransaction(w.Ctx)
+				_ = sess.AbortTransaction(w.Ctx)
+				sess.EndSession(w.Ctx)
+				sess.EndSession(w.Ctx)
+				_ = sess.StartTransaction()
+			}
+			eng.Close()
+		}
+	})
+	// result arguments of the wrong shape: a pointer to something that is no slice, a nil pointer, no pointer at all
+	add("driver-result-arguments", true, func() string {
+		return "Cursor.All / SingleResult.Decode / Cursor.Decode into a pointer to int, to a map, to a struct, a nil slice pointer, a slice value, nil"
+	}, func(w *world.World) {
+		c := w.C("d", "resargs")
+		_, _ = c.InsertMany(w.Ctx, []interface{}{bD("_id", int32(1)), bD("_id", int32(2))})
+		var n int
+		var m map[string]interface{}
+		var st struct{ A int }
+		var nilSlice *[]bson.D
+		var docs []bson.D
+		for _, out := range []interface{}{&n, &m, &st, nilSlice, docs, nil, &docs} {
+			if cur, err := c.Find(w.Ctx, bD()); err == nil {
+				_ = cur.All(w.Ctx, out)
+			}
+			if cur, err := c.Find(w.Ctx, bD()); err == nil {
+				if cur.Next(w.Ctx) {
+					_ = cur.Decode(out)
+				}
+				_ = cur.Close(w.Ctx)
+			}
+			_ = c.FindOne(w.Ctx, bD()).Decode(out)
+		}
+		_ = c.Drop(w.Ctx)
+	})
 	// downloads from hand-made files and chunks collections whose chunks do not fit the file record (short, empty,
 	// missing or oversized last chunk, a gap, a chunk of the wrong type): every seek target, then reads to the end
 	for _, shape := range []string{"last chunk empty", "last chunk short", "last chunk missing", "last chunk too long", "middle chunk missing", "data is a string", "length negative", "no chunks at all"} {
